@@ -25,7 +25,7 @@ def finale(r, want):
 
 def evaluate(kind, cfg, ops, names, want, seed=0):
     rng = random.Random(seed)
-    r = hist.Runner(kind, cfg, rng)
+    r = hist.Runner(kind, cfg, rng, disc_raises=[False, False, 'runtime', 'typeerror'][seed % 4])
     res = vlib.Result()
     try:
         for op in ops:
